@@ -116,14 +116,14 @@ CHECKS = {
     ),
     "C10": dict(
         technique="exhaustive configuration-lattice enumeration on the real engine with key-recording tracer kernels; differential bit-equality of complete runs plus a key-distinctness / split-lineage oracle",
-        text="Every configuration of a bounded lattice - engine seed x chains <=3 (thorough 4) x (kernels, generators) x epoch schedules <=2 (thorough 3) epochs x every chunk divisor x jitter {none, deterministic, key-using} x {replicated, per-chain} initial state - is built and run on the real EngineBuilder/Engine 2-3 + #chains times, with all stored leaves compared bit for bit (same seed twice, int vs PRNGKey, one chain perturbed); tracer kernels, generators and jitter functions record the raw key of every call (init, start, transition, end, tune, end-warmup, generate, jitter), and the set must be duplicate-free and free of split-lineage relations (also w.r.t. the engine's carry key and the builder's keys); the first stored sample must equal jitter(initial value) exactly.",
+        text="Every configuration of a bounded lattice - engine seed x chains <=3 (thorough 4) x (kernels, generators) x epoch schedules <=2 (thorough 3) epochs x every chunk divisor x jitter {none, element-wise, non-element-wise sum, key-using} x {replicated, per-chain} initial state - is built and run on the real EngineBuilder/Engine 2-3 + #chains times, with all stored leaves compared bit for bit (same seed twice, int vs PRNGKey, one chain perturbed); tracer kernels, generators and jitter functions record the raw key of every call (init, start, transition, end, tune, end-warmup, generate, jitter), and the set must be duplicate-free and free of split-lineage relations (also w.r.t. the engine's carry key and the builder's keys); the first stored sample must equal jitter(initial value) exactly. Reproducibility is additionally checked ACROSS interpreters: 2 configurations with >= 2 key-jittered position keys are re-run in up to 3 fresh processes whose string-hash seeds give different set iteration orders, and digests of all stored leaves are compared.",
         note="Legacy uint32[2] keys; lineage searched for split fan-out <=4, depth <=2; the configuration product is complete on reference schedules and strided (rotating offset) across the schedule lattice; RW/HMC/NUTS/IWLS used for bit-equality, independence and initial values only; an exception raised in a liesel frame on a valid configuration counts as a violation.",
         ref="3/C10",
     ),
     "C19": dict(
         technique="exhaustive enumeration of error-code arrays on the real log -> summary -> data-frame pipeline with a counting reference; one-chain-per-pattern engine sweep; exact round-trip comparison for ArviZ and pickle",
         text="Pipeline: for every layout (chains <=2 [thorough 4] x warm-up {0,1,2} x posterior {0,1,2} transitions in every epoch split x chunking x kernel set) EVERY assignment of error codes to every (kernel, chain, transition) cell (1.1e4 quick / 8.5e4 thorough) is pushed through the real SamplingResults.get_error_log -> _make_error_summary -> Summary.error_df and compared with a counting reference per kernel, code, message, chain and phase. Engine: a scripted-error kernel realises all 3^6 (3^8 thorough) single-chain patterns in one run (one chain per pattern), plus thinned, two-kernel and no-warm-up runs; full Summary, sample_info, ArviZ conversion (with/without warm-up) and the pickle round trip are compared exactly with what is stored.",
-        note="Pipeline-level SamplingResults are filled by hand the way the engine fills them; error_df is evaluated on a Summary shell; the 'relative' column is not checked; warmup_size_per_chain is compared with stored warm-up transitions; the engine oracle counts from the kernel's table, not from stored infos.",
+        note="Pipeline-level SamplingResults are filled by hand the way the engine fills them; error_df is evaluated on a Summary shell; the 'relative' column is not checked; warmup_size_per_chain is compared with stored warm-up transitions; the engine oracle counts from the kernel's table, not from stored infos; any exception raised by liesel on a valid input is a violation; one kernel documents an error code it never returns, so cross-kernel leakage shows as a wrong entry.",
         ref="3/C19",
     ),
 }
